@@ -192,6 +192,7 @@ type c18Env struct {
 	prefix string
 	c      *vfCluster
 	rng    *kit.RNG // driver goroutine only
+	t0     time.Time
 
 	mu           sync.Mutex
 	frng         *kit.RNG // fault decisions, under mu
@@ -229,7 +230,7 @@ type c18Env struct {
 
 func c18NewEnv(rep *kit.Report, unit string, run int, seed uint64) *c18Env {
 	rng := kit.NewRNG(seed)
-	e := &c18Env{rep: rep, unit: unit, run: run, seed: seed, rng: rng, frng: rng.Fork(0xF),
+	e := &c18Env{rep: rep, unit: unit, run: run, seed: seed, rng: rng, frng: rng.Fork(0xF), t0: time.Now(),
 		prefix: fmt.Sprintf("c18%s%dx", unit[:2], run), perEvent: map[uint64]int{}, known: map[uint64]c18Entry{},
 		streams: map[string]*c18Stream{}, groups: map[string]map[string]bool{}}
 	return e
@@ -249,6 +250,9 @@ func (e *c18Env) logf(format string, a ...interface{}) {
 
 func (e *c18Env) step(format string, a ...interface{}) {
 	s := fmt.Sprintf(format, a...)
+	if os.Getenv("C18_DEBUG") != "" {
+		fmt.Fprintf(os.Stderr, "c18 [%s %d] +%.1fs %s\n", e.unit, e.run, time.Since(e.t0).Seconds(), s)
+	}
 	e.mu.Lock()
 	e.steps = append(e.steps, s)
 	e.tracef("STEP %s", s)
@@ -771,9 +775,11 @@ func (e *c18Env) doOp(op c18Op) {
 func (e *c18Env) restartNode(id string) bool {
 	e.step("restart(%s)", id)
 	e.absorbStore(e.c.Nodes[id].Server(), id)
+	c18Stage("stopping")
 	if err := e.c.StopNode(id); err != nil {
 		e.logf("stop %s: %v", id, err)
 	}
+	c18Stage("starting")
 	return e.startNode(id)
 }
 
@@ -1052,5 +1058,7 @@ func (e *c18Env) account() {
 		e.rep.Nontrivial(fmt.Sprintf("%s|%s|f%d d%d r%d o%d", e.unit, strings.Join(e.steps, " "), e.nFail, e.nDup, e.restarts, e.failovers))
 	}
 	e.rep.Sample(map[string]any{"unit": e.unit, "run": e.run, "seed": e.seed, "steps": append([]string(nil), e.steps...),
-		"injected_publish_failures": e.nFail, "injected_published_not_recorded": e.nDup, "restarts": e.restarts, "failovers": e.failovers})
+		"injected_publish_failures": e.nFail, "injected_published_not_recorded": e.nDup, "restarts": e.restarts, "failovers": e.failovers,
+		"wall_s": int(time.Since(e.t0).Seconds())})
+	e.rep.Max("slowest_scenario_s", int64(time.Since(e.t0).Seconds()))
 }
